@@ -682,6 +682,15 @@ def obligations(tier, seed):
     if tier == 'thorough':
         specs.append(crosshair_runner.spec(MOD, CH, 'geopackage_store_then_load', 'canary/level-dispatch/remove on level 0 db',
                                            kind='canary', timeout=60, patches=CH_CANARY2, cost=10))
+    # SQLite backends: a store/remove is committed when the call returns -- every other connection (thread, process, the same
+    # thread after cleanup()) then sees exactly that address changed (E2, two-connection transaction model)
+    CH_TX = 'props/ch/c05_sqlite_tx.py'
+    for f in ('mbtiles_remove_is_committed', 'geopackage_remove_is_committed', 'mbtiles_store_is_committed', 'geopackage_store_is_committed'):
+        specs.append(crosshair_runner.spec(MOD, CH_TX, f, 'sqlite-committed/' + f, timeout=120, cost=60,
+                                           functions=['MBTilesCache.remove_tile', 'MBTilesCache._store_bulk', 'GeopackageCache.remove_tile', 'GeopackageCache._store_bulk']))
+    specs.append(crosshair_runner.spec(MOD, CH_TX, 'twin_remove', 'twin/sqlite-committed', kind='witness', timeout=60, cost=10))
+    specs.append(crosshair_runner.spec(MOD, CH_TX, 'geopackage_store_is_committed', 'canary/sqlite-committed/geopackage store left in an open transaction', kind='canary', timeout=60, cost=10,
+                                       patches={'mapproxy.cache.geopackage': [["            cursor.executemany(stmt, records)\n            self.db.commit()\n", "            cursor.executemany(stmt, records)\n"]]}))
     twins = dict(PathInjective=dict(layout='tc', d1='time_a', d2='time_a'), LevelPrefix=dict(layout='tc', d1='none'),
                  FileCacheOps=dict(layout='tc', d1='none', op='store_tile', link='symlink'),
                  SingleColourName=dict(layout='tc', bands=3), CompactAddr=dict(version=2), CompactRouting=dict(version=2, op='store_tiles'),
